@@ -18,7 +18,10 @@ def oracle(ctx, V, obs, ktypes, tag):
         if real and not v["ok"]:
             # the real validator accepted a transaction the property forbids
             n_viol += 1
-            if v["mut"]:
+            if v["pre"] != "fresh":
+                # the same bytes are judged differently because of what was done with the object before
+                key = "VerifyTransaction:unsound-accept:after-%s" % {"queried": "GetSignatureAddresses", "reverify": "failed-VerifyTransaction"}[v["pre"]]
+            elif v["mut"]:
                 key = "Mutate%s:mutated-transaction-accepted" % v["mut"].capitalize()
             elif v["dup"] and all_sets_signed_by_position(tx):
                 key = KNOWN_DUP          # fixed by 900ecb87: reappears only if position masking returns
@@ -108,7 +111,7 @@ def run(ctx):
     if r and binary:
         V, X, M = sc.split_tx_rows(rows)
         names = {m["name"] for m in M}
-        if not ({"MutateContent", "MutatePayer", "MutateSig"} <= names) or not any(v["v"] for v in V) or not any(not v["v"] for v in V) or not X:
+        if not ({"queried", "reverify"} <= {v["pre"] for v in V}) or not ({"MutateContent", "MutatePayer", "MutateSig"} <= names) or not any(v["v"] for v in V) or not any(not v["v"] for v in V) or not X:
             ctx.infra("vacuous model run: actions seen %s, V rows %d" % (sorted(names), len(V)))
         cand = sum(1 for v in V if v["v"] and not v["ok"])
         ctx.log("rows: %d VerifyTransaction (%d accepted by the model, %d of them against the property = TLC candidates), %d mutations"
@@ -150,7 +153,8 @@ def run(ctx):
         "tlc_candidates_against_property": cand, "per_key_types": per_kt,
         "exhaustive": True, "deviation_switches": {"MaskByPosition": False, "RawScriptFallback": False},
         "constants": {"cfg": "SigTx_C16%s.cfg" % t, "keys": 3, "max_keys_per_script": 3, "max_sigs": 3, "sets": "1 (full), 2 (family of 9), 0/16/17"},
-    }, ["ideal cryptography: a signature verifies iff it was made by that key over exactly that message",
+    }, ["operation sequences on one Transaction object: VerifyTransaction on a fresh decode, after GetSignatureAddresses(), and again after a rejection (VerdictPure: the verdict is a function of the bytes)",
+        "ideal cryptography: a signature verifies iff it was made by that key over exactly that message",
         "mutations are applied to transactions in builder shape (each set carries exactly m signatures); surplus signatures are never examined by the validator and are outside the mutation claim",
         "abstract keys are bound to real keys of every supported type (P-224/256/384/521, secp256k1, SM2, Ed25519, Ethereum-type); all rows with P-256, seeded samples with the others",
         "byte mutations XOR one byte with 0x01, 0x04, 0x80 and a seeded value at the first two, the last and seeded positions of the named region (every position for a subset of rows)"])
